@@ -13,12 +13,13 @@ LEVEL = "model_checking"
 DESIGN_REF = "DESIGN.md section 4 / C15"
 CHUNK = 2
 RULE = ("ops = {fun, grad, fun_and_grad} x points {a, b, c, a' (equal to a, other object and "
-        "dtype), a~ (4 ulps from a)} + {scale:=1, scale:=2.5} + {caller overwrites the array it last passed}; "
+        "dtype), a~ (4 ulps from a)} + {scale:=1, scale:=2.5} + {caller overwrites the array it last passed} + {the next user-function call "
+        "raises and the caller goes on}; "
         "user functions scribble on their argument; modes callable, 2-point, 3-point, cs "
         "(with bounds); model = one memo cell (point, has_f, has_g) and a scale; BFS over "
-        "all model states x 18 ops with every edge executed on a fresh real ScalarFunction "
+        "all model states x 19 ops with every edge executed on a fresh real ScalarFunction "
         "by replaying the state's shortest history, and ALL histories to depth 4 (quick) / "
-        "depth 5 over all 18 ops in 4 modes and depth 6 over the 15 call ops in callable mode (thorough, first variant; depth 4 under the other variants); oracle per step: "
+        "depth 5 over all 19 ops in 4 modes and depth 6 over the 15 call ops in callable mode (thorough, first variant; depth 4 under the other variants); oracle per step: "
         "value == fresh user value x current scale (bitwise; finite-difference gradient vs a "
         "fresh approx_derivative with the same options), user calls at the requested point "
         "== model expectation (0 if cached), nfev/ngev deltas == logged calls/computations; "
@@ -30,7 +31,8 @@ ASSUMPTIONS = [
 ]
 MODES = ("callable", "2-point", "3-point", "cs")
 CALLS = [(k, p) for k in ("fun", "grad", "fg") for p in ("a", "b", "c", "a2", "an")]
-OTHER = [("scale", 1.0), ("scale", 2.5), ("mut", None)]
+# "fail": the next user-function invocation raises (the caller catches it and goes on)
+OTHER = [("scale", 1.0), ("scale", 2.5), ("mut", None), ("fail", None)]
 OPS = CALLS + OTHER
 ABS = {"a": "a", "b": "b", "c": "c", "a2": "a", "an": "an"}
 
@@ -91,7 +93,15 @@ def execute(hist, mode, v):
     P = pts(v)
     log = []
 
+    armed = [False]
+
+    class Boom(Exception):
+        pass
+
     def fun(x):
+        if armed[0]:
+            armed[0] = False
+            raise Boom()
         xc = np.array(x, copy=True)
         log.append(("f", xc))
         if np.isrealobj(x):
@@ -99,6 +109,9 @@ def execute(hist, mode, v):
         return Fv(xc)
 
     def jac(x):
+        if armed[0]:
+            armed[0] = False
+            raise Boom()
         xc = np.array(x, copy=True)
         log.append(("g", xc))
         x[...] = 321.0
@@ -108,9 +121,14 @@ def execute(hist, mode, v):
     state = ("a", False, False, 1.0)
     last = None
     errs = []
+    uncertain = False      # after a failed evaluation the model no longer predicts counts
     for k, (op, arg) in enumerate(hist):
         n0 = len(log)
         nf0, ng0 = sf.nfev, sf.ngev
+        if op == "fail":
+            armed[0] = True
+            continue
+        prev_state = state
         state, exp_f, exp_g = model_step(state, op, arg, mode)
         if op == "scale":
             sf.scaling_factor = arg
@@ -122,7 +140,19 @@ def execute(hist, mode, v):
         p = P[arg].copy()
         last = p
         truth = np.asarray(P[arg], dtype=float)
-        out = getattr(sf, {"fun": "fun", "grad": "grad", "fg": "fun_and_grad"}[op])(p)
+        if uncertain and ABS[arg] != prev_state[0]:
+            uncertain = False          # a new point resets the memo: the model is exact again
+        try:
+            out = getattr(sf, {"fun": "fun", "grad": "grad", "fg": "fun_and_grad"}[op])(p)
+        except Boom:
+            # nothing may be taken as cached for this point from now on; what the wrapper
+            # remembers of a partially failed request is not specified: only the
+            # freshness of later answers is checked until the point changes
+            state = (ABS[arg], False, False, state[3])
+            uncertain = True
+            continue
+        if armed[0]:
+            uncertain = uncertain   # the armed failure was not consumed (cache hit): keep it
         if not np.array_equal(p, P[arg]):
             errs.append((k, "argument_modified", {}))
         new = log[n0:]
@@ -143,6 +173,11 @@ def execute(hist, mode, v):
                 errs.append((k, "stale_or_wrong_gradient", dict(got=gv, want=want)))
         nfc = sum(1 for kk, _ in new if kk == "f")
         ngc = sum(1 for kk, _ in new if kk == "g")
+        if uncertain:
+            # after a failure: the answer above must be fresh; counts are not predicted
+            state = (state[0], True if op in ("fun", "fg") or mode != "callable" else state[1],
+                     True if op in ("grad", "fg") else state[2], state[3])
+            continue
         if sf.nfev - nf0 != nfc:
             errs.append((k, "nfev_delta_differs_from_calls", dict(delta=sf.nfev - nf0, calls=nfc)))
         base = sum(1 for kk, x in new if kk == "f" and np.isrealobj(x)
@@ -155,6 +190,8 @@ def execute(hist, mode, v):
         if sf.ngev - ng0 != exp_g:
             errs.append((k, "ngev_delta", dict(delta=sf.ngev - ng0, model=exp_g)))
     impl = None
+    if uncertain or armed[0]:
+        return errs, None, state
     try:
         cell = [n for n in ("a", "b", "c", "an") if np.array_equal(sf.x, P[n])]
         impl = (cell[0] if cell else "?", bool(sf.f_updated), bool(sf.g_updated),
@@ -174,7 +211,7 @@ def cases(tier, variants):
                     for j in range(len(OPS)):
                         yield dict(part="hist", var=v, mode=mode, pre=[i, j], depth=4, alpha="all")
             else:
-                # depth 5 over all 18 ops under the first variant, depth 4 under the others;
+                # depth 5 over all 19 ops under the first variant, depth 4 under the others;
                 # depth 6 over the 15 call ops for the callable mode (first variant)
                 d = 5 if v == variants[0] else 4
                 for i in range(len(OPS)):
@@ -190,7 +227,7 @@ def cases(tier, variants):
 def nontrivial(hist):
     seen = set()
     for op, arg in hist:
-        if op in ("scale", "mut"):
+        if op in ("scale", "mut", "fail"):
             return True
         if ABS[arg] in seen:
             return True
